@@ -248,7 +248,28 @@ def rows_of(obj):
              for k, v in r.items()} for r in rows]
 
 
-def close(a, b, exact, scale=1.0):
+def nr_noise(build):
+    """Inexact mode only: what the iterative surfaces of a lens add to the
+    comparison of two lenses whose vertex positions differ in the last bit.
+    Each converged ray is within tol of the surface; at the end of the
+    longest gap that is tol x gap / radius."""
+    from engines.interleave import batch_tol
+    tol = batch_tol(build)
+    if not tol:
+        return 0.0
+    gaps = [abs(o['thickness']) for o in build
+            if o.get('op') == 'add_surface' and
+            isinstance(o.get('thickness'), (int, float)) and
+            math.isfinite(o['thickness'])]
+    radii = [abs(o['radius']) for o in build
+             if o.get('op') == 'add_surface' and
+             isinstance(o.get('radius'), (int, float)) and
+             math.isfinite(o['radius']) and o['radius'] != 0]
+    amp = max(1.0, max(gaps + [1.0]) / min(radii + [1e9]))
+    return tol * amp
+
+
+def close(a, b, exact, scale=1.0, extra=0.0):
     if isinstance(a, str) or isinstance(b, str):
         return a == b
     a, b = float(a), float(b)
@@ -258,7 +279,7 @@ def close(a, b, exact, scale=1.0):
         return True
     if exact or not (math.isfinite(a) and math.isfinite(b)):
         return False
-    return abs(a - b) <= 1e-7 * max(abs(a), abs(b)) + 1e-9 * scale
+    return abs(a - b) <= 1e-7 * max(abs(a), abs(b)) + 1e-9 * scale + extra
 
 
 class Sim:
@@ -440,6 +461,7 @@ class Sim:
         exact = not P.uses_thickness
         compare_comp = exact or not P.cspecs
         scale = 1.0 + self.P.w.model.zscale
+        extra = 0.0 if exact else nr_noise(self.hist['build'])
         # nominal operand values from a fresh lens
         nominal_vals = None
         for ri, row in enumerate(rows):
@@ -478,7 +500,7 @@ class Sim:
                 continue
             self.stats['oracle_checks'] += 1
             for nme, rv in zip(names, ref_vals):
-                if not close(row.get(nme), rv, exact, scale):
+                if not close(row.get(nme), rv, exact, scale, extra):
                     raise Violation(
                         'rows', f'C15/{op}/rows/operand',
                         f'row {ri} of the {op} table: {nme} = '
@@ -512,7 +534,7 @@ class Sim:
                         continue
                 self.stats['oracle_checks'] += 1
                 for nme, nv in zip(names, nominal_vals):
-                    if not close(row.get(nme), nv, exact, scale):
+                    if not close(row.get(nme), nv, exact, scale, extra):
                         raise Violation(
                             'nominal', f'C15/{op}/nominal-row',
                             f'row {ri}: every perturbation equals its '
